@@ -5,6 +5,7 @@ import HL.Lemmas.Balance
 import HL.Model.Num
 import HL.Spec.Number
 import HL.Lemmas.Num
+import HL.Lemmas.DecString
 
 /-!
   C02 "Unbalanced-transaction verdicts are exact" — the arithmetic core.
@@ -266,6 +267,21 @@ theorem message_numbers_exact (tx : Transaction) (r : Result) (h : check tx = so
           · cases hv; rfl
     rw [this, find?_diffs]
 
+/-- **message_numbers_parse_back.**  The number printed after "off by" for commodity `c`
+    (`Decimal.String()` of the difference) reads back as the exact absolute residual of `c`. -/
+theorem message_numbers_parse_back (tx : Transaction) (r : Result) (h : check tx = some r)
+    (hu : r.balanced = false) (hd : r.differences ≠ []) (c : Bytes) (v : Dec)
+    (hv : KV.find? r.differences c = some v) (hexp : Dec.int32Min ≤ v.exp) :
+    (Dec.ofString (Dec.toString v)).map Dec.toRat = some (rabs (residual totalBySignum (image tx) c)) ∧
+    residual totalBySignum (image tx) c ≠ 0 := by
+  have := message_numbers_exact tx r h hu hd c
+  rw [hv] at this
+  rw [Num.toString_roundtrip v hexp]
+  by_cases hz : residual totalBySignum (image tx) c = 0
+  · simp [hz] at this
+  · simp only [hz, if_false, Option.map_some, Option.some.injEq] at this
+    exact ⟨by rw [this], hz⟩
+
 theorem insertSorted_perm (k : Bytes) (l : List Bytes) : (KV.insertSorted k l).Perm (k :: l) := by
   induction l with
   | nil => exact List.Perm.refl _
@@ -386,7 +402,8 @@ theorem normalize_value (n : G.Number) (hwf : G.wf n = true) (hA : G.shapeA n = 
     intro e he
     rw [he] at w6
     simpa using w6
-  have hof := Num.ofString_canon n.neg n.intDigits n.frac n.mark.isSome n.exp w1 hm hexp w7 w8
+  have hof := Num.ofString_canon n.neg n.intDigits n.frac n.mark.isSome n.exp w1 hm hexp
+    (by unfold Dec.int32Min; omega) (by unfold Dec.int32Max; omega)
   unfold Num.quantity
   rw [hprep]
   unfold Num.canon
@@ -402,6 +419,105 @@ theorem normalize_value (n : G.Number) (hwf : G.wf n = true) (hA : G.shapeA n = 
 /-- what reaches `NewFromString` is the canonical spelling `[-]digits[.digits][E±digits]`. -/
 theorem normalize_canonical (n : G.Number) (hwf : G.wf n = true) (hA : G.shapeA n = false) :
     Num.prepare n.neg (G.render n) = Num.canon n := Num.prepare_render n hwf hA
+
+/-! ### from written notations to the verdict (the arithmetic half of the pipeline) -/
+
+/-- an amount as written: a notation and a commodity symbol. -/
+structure WAmount where
+  n : G.Number
+  c : Bytes
+
+/-- a posting as written (what the generator's ground truth records). -/
+structure WPosting where
+  kind : Virtual
+  account : Bytes
+  amount : Option WAmount
+  cost : Option (Bool × WAmount)
+
+def WAmount.ok (a : WAmount) : Prop := G.wf a.n = true ∧ G.shapeA a.n = false
+
+/-- the exact rational transaction a list of written postings denotes. -/
+def written (w : List WPosting) : RTx :=
+  w.map fun p => ⟨p.kind, p.account, p.amount.map fun a => ⟨G.value a.n, a.c⟩,
+    p.cost.map fun tc => ⟨tc.1, G.value tc.2.n, tc.2.c⟩⟩
+
+/-- `parseAmount` read this amount from that notation: the commodity is the one written and the
+    quantity is what the modelled chain computes from the Number token and the sign. -/
+def ReadAs (a : Amount) (w : WAmount) : Prop :=
+  a.commodity.symbol = w.c ∧ Num.quantity w.n.neg (G.render w.n) = some a.quantity
+
+/-- the posting structure was recovered (kinds, accounts, presence of amount and cost). -/
+def PostingReadAs (p : Posting) (w : WPosting) : Prop :=
+  p.virt = w.kind ∧ p.account.name = w.account ∧
+  (match p.amount, w.amount with
+    | none, none => True
+    | some a, some wa => ReadAs a wa ∧ wa.ok
+    | _, _ => False) ∧
+  (match p.cost, w.cost with
+    | none, none => True
+    | some c, some wc => c.isTotal = wc.1 ∧ ReadAs c.amount wc.2 ∧ wc.2.ok
+    | _, _ => False)
+
+/-- posting by posting. -/
+inductive AllReadAs : List Posting → List WPosting → Prop
+  | nil : AllReadAs [] []
+  | cons {p w ps ws} : PostingReadAs p w → AllReadAs ps ws → AllReadAs (p :: ps) (w :: ws)
+
+theorem readAs_value {a : Amount} {w : WAmount} (h : ReadAs a w) (hok : w.ok) :
+    Dec.toRat a.quantity = G.value w.n := by
+  have := normalize_value w.n hok.1 hok.2
+  rw [h.2] at this
+  simpa using this
+
+theorem image_of_readAs (ps : List Posting) (w : List WPosting)
+    (h : AllReadAs ps w) : ps.map imagePosting = written w := by
+  induction h with
+  | nil => rfl
+  | @cons p wp ps ws hp _ ih =>
+    unfold written at ih ⊢
+    rw [List.map_cons, List.map_cons, ih]
+    congr 1
+    obtain ⟨h1, h2, h3, h4⟩ := hp
+    unfold imagePosting
+    congr 1
+    · cases hpa : p.amount with
+      | none =>
+        cases hwa : wp.amount with
+        | none => rfl
+        | some wa => rw [hpa, hwa] at h3; exact h3.elim
+      | some a =>
+        cases hwa : wp.amount with
+        | none => rw [hpa, hwa] at h3; exact h3.elim
+        | some wa =>
+          rw [hpa, hwa] at h3
+          simp only [Option.map_some, imageAmount, readAs_value h3.1 h3.2, h3.1.1]
+    · cases hpc : p.cost with
+      | none =>
+        cases hwc : wp.cost with
+        | none => rfl
+        | some wc => rw [hpc, hwc] at h4; exact h4.elim
+      | some c =>
+        cases hwc : wp.cost with
+        | none => rw [hpc, hwc] at h4; exact h4.elim
+        | some wc =>
+          rw [hpc, hwc] at h4
+          simp only [Option.map_some, imageCost, readAs_value h4.2.1 h4.2.2, h4.2.1.1, h4.1]
+
+/-- **check_exact_written.**  If the parser recovered the posting structure of a transaction
+    and read every amount from the notation it was written in (any notation of 4.3 outside the
+    shape side condition A excludes), then `CheckBalance` states exactly the verdict of the
+    exact-sum rule on the values WRITTEN — notation, sign placement and commodity side do not
+    enter.  (The structural hypothesis is the lexer/parser part of the pipeline, C03; the
+    correspondence checks it on every generated transaction.) -/
+theorem check_exact_written (tx : Transaction) (w : List WPosting)
+    (h : AllReadAs tx.postings w) :
+    match check tx with
+    | none => Overflows tx
+    | some r => Corresponds r (verdict (written w)) := by
+  have himg : image tx = written w := image_of_readAs tx.postings w h
+  have := check_exact tx
+  rw [himg] at this
+  exact this
 
 def dg (s : String) : List G.Digit := s.toList.map fun c => Fin.ofNat 10 (c.toNat - 48)
 
@@ -429,6 +545,14 @@ example : G.render nGroupCommaDot = bs "1,234.56" ∧ G.render nGroupSpace = bs 
 example : Num.quantity false (bs "1 234,56") = some ⟨123456, -2⟩ ∧
     Num.quantity false (bs "1.5E3") = some ⟨15, 2⟩ ∧
     Num.quantity true (bs "1,234,567") = some ⟨-1234567, 0⟩ := by decide +kernel
+
+/-- non-vacuity of `check_exact_written`: `a:b  1,234.56 USD` / `c:d  -1234,56 USD`. -/
+example : AllReadAs
+    [mkPost "a:b" (some (mkAmt 123456 (-2) "USD")) none, mkPost "c:d" (some (mkAmt (-123456) (-2) "USD")) none]
+    [⟨.none, bs "a:b", some ⟨nGroupCommaDot, bs "USD"⟩, none⟩,
+     ⟨.none, bs "c:d", some ⟨⟨true, dg "1234", none, some 44, dg "56", none⟩, bs "USD"⟩, none⟩] := by
+  refine .cons ⟨rfl, rfl, ⟨⟨rfl, ?_⟩, ?_, ?_⟩, trivial⟩ (.cons ⟨rfl, rfl, ⟨⟨rfl, ?_⟩, ?_, ?_⟩, trivial⟩ .nil)
+  all_goals decide +kernel
 
 /-- The shape side condition A excludes really is read differently: `1,234` written to mean
     1.234 (decimal comma, three decimals) is read as the grouped integer 1234 — the project's
